@@ -28,6 +28,9 @@ type GenerateSettings struct {
 	customRecordTypes map[string]struct{}
 	// enumSizes maps enum type names to the byte width of their underlying type
 	enumSizes map[string]uint8
+	// minSizes maps record type names to the least number of bytes an
+	// encoding of that record can take
+	minSizes map[string]int
 
 	ImportGenerationMode
 	imported          []File
@@ -408,6 +411,7 @@ func (f File) Generate(inputWriter io.Writer, settings GenerateSettings) error {
 	for _, en := range f.Enums {
 		settings.enumSizes[en.Name] = fixedSizeTypes[en.SimpleType]
 	}
+	settings.minSizes = f.minSizes(settings)
 
 	usedTypes := f.usedTypes()
 	if settings.PackageName == "" && f.GoPackage != "" {
@@ -624,6 +628,72 @@ func writeFieldByter(name string, typ FieldType, w io.Writer, settings GenerateS
 	}
 }
 
+// minSizes computes, for every record type, the size of its smallest encoding.
+func (f File) minSizes(settings GenerateSettings) map[string]int {
+	out := make(map[string]int)
+	// messages and unions always carry a four byte length and one more byte
+	// (terminator / discriminator)
+	for _, msg := range f.Messages {
+		out[msg.Name] = 5
+	}
+	structs := append([]Struct{}, f.Structs...)
+	for _, u := range f.Unions {
+		out[u.Name] = 5
+		for _, ufd := range u.Fields {
+			if ufd.Message != nil {
+				out[ufd.Message.Name] = 5
+			}
+			if ufd.Struct != nil {
+				structs = append(structs, *ufd.Struct)
+			}
+		}
+	}
+	settings.minSizes = out
+	// structs may refer to structs defined later; they cannot be recursive
+	for range structs {
+		for _, st := range structs {
+			sz := 0
+			for _, fd := range st.Fields {
+				sz += minWireSize(fd.FieldType, settings)
+			}
+			out[st.Name] = sz
+		}
+	}
+	return out
+}
+
+// minWireSize reports the least number of bytes an encoding of typ can take.
+func minWireSize(typ FieldType, settings GenerateSettings) int {
+	if typ.Array != nil || typ.Map != nil {
+		return 4
+	}
+	simpleTyp := typ.Simple
+	if alias, ok := settings.importTypeAliases[simpleTyp]; ok {
+		simpleTyp = alias
+	}
+	if sz, ok := fixedSizeTypes[simpleTyp]; ok {
+		return int(sz)
+	}
+	if sz, ok := settings.enumSizes[simpleTyp]; ok {
+		return int(sz)
+	}
+	if simpleTyp == typeString {
+		return 4
+	}
+	return settings.minSizes[simpleTyp]
+}
+
+// writeCountCheck rejects an element count that the remaining input cannot
+// hold, before anything is allocated for it.
+func writeCountCheck(w io.Writer, minSize int, depth int) {
+	if minSize <= 0 {
+		return
+	}
+	writeLineWithTabs(w, "if uint64(len(buf[at+4:])) < uint64(iohelp.ReadUint32Bytes(buf[at:]))*"+strconv.Itoa(minSize)+" {", depth)
+	writeLineWithTabs(w, "\treturn io.ErrUnexpectedEOF", depth)
+	writeLineWithTabs(w, "}", depth)
+}
+
 func writeLengthCheck(w io.Writer, ln string, depth int, args ...string) {
 	writeLineWithTabs(w, "if len(buf[at:]) < "+ln+" {", depth, args...)
 	writeLineWithTabs(w, "\treturn io.ErrUnexpectedEOF", depth, args...)
@@ -634,6 +704,7 @@ func writeFieldReadByter(name string, typ FieldType, w *iohelp.ErrorWriter, sett
 	if typ.Array != nil {
 		if safe {
 			writeLengthCheck(w, "4", depth)
+			writeCountCheck(w, minWireSize(*typ.Array, settings), depth)
 		}
 
 		writeLineWithTabs(w, "%ASGN = make([]%TYPE, iohelp.ReadUint32Bytes(buf[at:]))", depth, name, typ.Array.goString(settings))
@@ -655,6 +726,10 @@ func writeFieldReadByter(name string, typ FieldType, w *iohelp.ErrorWriter, sett
 		writeLineWithTabs(w, "}", depth)
 	} else if typ.Map != nil {
 		lnName := lengthName(settings)
+		if safe {
+			writeLengthCheck(w, "4", depth)
+			writeCountCheck(w, minWireSize(FieldType{Simple: typ.Map.Key}, settings)+minWireSize(typ.Map.Value, settings), depth)
+		}
 		writeLineWithTabs(w, lnName+" := iohelp.ReadUint32Bytes(buf[at:])", depth)
 		writeLineWithTabs(w, "at += 4", depth)
 		writeLineWithTabs(w, "%ASGN = make(%TYPE,"+lnName+")", depth, name, typ.Map.goString(settings))
